@@ -97,6 +97,12 @@ func (run *Output) trimStartLetterSpacing() {
 	if len(run.Glyphs) == 0 {
 		return
 	}
+	if run.Glyphs[0].startLetterSpacing == 0 {
+		return
+	}
+	// The glyphs are shared with the run this one was cut from (and with
+	// every other line candidate cut from it): copy them before trimming.
+	run.Glyphs = append([]Glyph(nil), run.Glyphs...)
 	firstG := &run.Glyphs[0]
 	halfSpacing := firstG.startLetterSpacing
 	if run.Direction.IsVertical() {
